@@ -31,14 +31,14 @@ Theorem C18_settings : forall j ea ec s,
 Proof. exact settings_filter. Qed.
 Print Assumptions C18_settings.
 
-(* scope: the declared set the server uses is  own declarations ++ workspace declarations.
-   The statement "own ++ include tree ++ workspace" is therefore false whenever the include
-   tree declares something and there is no workspace; witness: *)
+(* scope: the declared set the server hands to the analysis is  include tree ++ workspace
+   (Server.externalDeclarations, repaired in /repo by fix 2b08bc6; before it the include tree was
+   left out).  The rule is sensitive to that set, which is why the scope matters: *)
 Definition scope_witness : journal :=
   mkJournal [mkTx (mkDate 2024 1 1 rng0) None StNone [] (bs "x") [] []
                   [mkPosting StNone (bs "other:acct") rng0 None None None [] [] VNone rng0] [] [] rng0] [] [] [].
-Theorem C18_scope_refuted :
+Theorem C18_scope_matters :
   analyze_warnings scope_witness [] [] default_settings = [] /\
   analyze_warnings scope_witness [bs "my:acct"] [] default_settings = [WAccount 0 (bs "other:acct")].
 Proof. split; vm_compute; reflexivity. Qed.
-Print Assumptions C18_scope_refuted.
+Print Assumptions C18_scope_matters.
